@@ -3,6 +3,7 @@
 from __future__ import annotations
 
 import itertools
+import re
 import json
 from datetime import datetime as dt
 
@@ -31,6 +32,17 @@ TEMP_KEYS = {
     "temperature", "setpoint", "dewpoint_temp", "max_temp", "min_temp", "outdoor_temp", "indoor_temp", "exhaust_temp", "supply_temp",
     "setpoint_now", "setpoint_next", "boiler_output_temp", "boiler_return_temp", "dhw_temp", "boiler_setpoint",
 }  # fmt: skip
+# payloads with a meaning of their own that a <= k-deviation neighbourhood of the canonical words does not reach
+_NULL_0418 = "B0000000000000000000007FFFFF7000000000"
+SPECIAL = {
+    "0418": [f"0000{i}{_NULL_0418}" for i in ("00", "01", "05", "3F")] + [f"00C0{i}{_NULL_0418}" for i in ("00", "05")],
+    "0004": [f"{z}00" + "7F" * 20 for z in ("00", "05", "0B")],
+    "1F09": ["FF0000", "00FFFF", "F80000"],
+    "0404": ["00230008000 1FF".replace(" ", ""), "012000080001FF"],
+    "3220": ["00C0050000", "0070050000", "00F0050000", "0040110000"],
+    "2349": ["0007D000FFFFFF", "007FFF00FFFFFF", "0007D0040000001E0A0C0207E8"],
+    "313F": ["00FC0000001D0207E8"],
+}
 IDX_RULE = {"zone_idx": "p0", "domain_id": "p0", "dhw_idx": "p0", "ufh_idx": "p0", "other_idx": "p0", "hvac_id": "p0", "log_idx": "p4", "msg_id": "i4"}
 ARRAY_CODES = {"0009": 3, "000A": 6, "2309": 3, "30C9": 3, "2249": 7, "22C9": 6, "3150": 2}
 
@@ -152,7 +164,8 @@ def shard_words(arg) -> E.Tally:
             ncls = max(sum(1 for s in sl if s[0] == "cls" and len(s[1]) > 1) for sl in rxlang.structural_variants(rx))
             k = 2 if ncls <= (6 if quick else 8) else 1
             addrs = ADDRS[verb][: 3 if quick else None]
-            for w in rxlang.words(rx, k=k):
+            special = [w for w in SPECIAL.get(code, ()) if re.match(rx, w)]
+            for w in itertools.chain(rxlang.words(rx, k=k), special):
                 for ai, a in enumerate(addrs):
                     frame = f"{verb} --- {a} {code} {len(w) // 2:03d} {w}"
                     t.n += 1
@@ -273,6 +286,14 @@ def representatives(limit: int) -> list[str]:
     return out[:limit]
 
 
+def _frozen(res):
+    """A deep, comparable snapshot of a decode result."""
+    try:
+        return (res[0], json.loads(json.dumps(res[1], default=repr)))
+    except Exception:  # noqa: BLE001
+        return (res[0], repr(res[1]))
+
+
 def shard_order(arg) -> E.Tally:
     i, n, limit, triples = arg
     logcap.silence_all()
@@ -281,9 +302,11 @@ def shard_order(arg) -> E.Tally:
     alone = {}
     for fr in reps:
         clear_caches()
-        alone[fr] = decode(fr)[:2]
+        alone[fr] = _frozen(decode(fr)[:2])  # (a snapshot: a decoder that hands out a shared object would otherwise change it under us)
+    # the first packet of a pair also in a numbered-sequence form (sequence numbers are what memoised / shared results trip over)
+    firsts = reps + [fr[:3] + "045" + fr[6:] for fr in reps if fr[3:6] == "---"]
     j = 0
-    for a in reps:
+    for a in firsts:
         j += 1
         if j % n != i:
             continue
@@ -291,9 +314,9 @@ def shard_order(arg) -> E.Tally:
             t.n += 1
             clear_caches()
             decode(a)
-            got = decode(b)[:2]
+            got = _frozen(decode(b)[:2])
             if got != alone[b]:
-                t.bad(f"C05:depends-on-earlier-packet:{b.split()[-3]}", f"decode({b!r}) after decode({a!r}) = {got!r}, alone = {alone[b]!r}"[:400], {"a": a, "b": b})
+                t.bad(f"C05:depends-on-earlier-packet:{b.split()[-3]}", f"decode({b!r}) after decode({a!r}) (and the packets decoded before it in this worker) = {got!r}, alone = {alone[b]!r}"[:400], {"a": a, "b": b, "shard": [i, n, limit, triples]})
             t.nontrivial += 1
         if triples:
             sub = reps[:: max(1, len(reps) // 40)]
@@ -303,9 +326,9 @@ def shard_order(arg) -> E.Tally:
                     clear_caches()
                     decode(a)
                     decode(b)
-                    got = decode(c)[:2]
+                    got = _frozen(decode(c)[:2])
                     if got != alone[c]:
-                        t.bad(f"C05:depends-on-earlier-packet:{c.split()[-3]}", f"decode({c!r}) after {a!r}, {b!r} = {got!r}, alone = {alone[c]!r}"[:400], {"a": a, "b": c})
+                        t.bad(f"C05:depends-on-earlier-packet:{c.split()[-3]}", f"decode({c!r}) after {a!r}, {b!r} = {got!r}, alone = {alone[c]!r}"[:400], {"a": a, "b": c, "shard": [i, n, limit, triples]})
     t.by["ordered_pairs"] = t.n
     return t
 
@@ -326,7 +349,7 @@ def run(ctx) -> None:
         rule="regex-language words of all 240 verb/code regexes (structural variants x <=1 class deviation, <=2 where the payload has few class positions, + "
         "sentinels) under several address shapes: JSON round trip, same result again / a year later / after clearing every lru cache, reported index = "
         "frame bytes, ratios in 0..1, temperatures in wire range; all arrays of length 1..3 over an element domain and all 1-element deviations of "
-        "lengths 4..8 for the 7 array codes: array == [element alone]; all ordered pairs of representative packets (one per verb/code/shape of the logs): "
+        "lengths 4..8 for the 7 array codes: array == [element alone]; all ordered pairs of representative packets (one per verb/code/shape of the logs; the first of a pair also with a numeric sequence number): "
         "decode(B) after decode(A) == decode(B) alone. non-trivial = packets that decode",
         exhaustive=True,
     )
@@ -338,12 +361,16 @@ def replay(rep: dict):
     t = E.Tally()
     if "a" in rep:
         clear_caches()
-        alone = decode(rep["b"])[:2]
+        alone = _frozen(decode(rep["b"])[:2])
         clear_caches()
         decode(rep["a"])
-        got = decode(rep["b"])[:2]
+        got = _frozen(decode(rep["b"])[:2])
         if got != alone:
             t.bad(f"C05:depends-on-earlier-packet:{rep['b'].split()[-3]}", f"{got!r} vs {alone!r}", rep)
+        elif "shard" in rep:
+            # state shared between decodes (a module-level object) may have been polluted by an EARLIER first packet of the same
+            # worker: re-run that worker's whole (deterministic) sequence in this fresh process
+            t.merge(shard_order(tuple(rep["shard"])))
     else:
         fr = rep["frame"]
         st, p, m = decode(fr)
